@@ -134,7 +134,7 @@ def scenario(cls, sender_addr, recipient_addr, change_addr, keys, flag, fraction
     tot = sum(u[2] for u in utxos) if total is None else total
     uns = [(u[0], u[1], R.f2me(R.sat_to_float(u[2])), u[3]) for u in utxos]
     rs = R.address_script(recipient_addr)
-    chs = R.address_script(change_addr if change_addr else sender_addr)
+    chs = R.change_script(sender_addr, change_addr)
     return case(cls, "send", sender_addr, recipient_addr, change_addr, list(keys), flag, R.f2me(fraction), fee, version, locktime,
                 R.f2me(R.sat_to_float(tot)), uns, list(draws), rs, chs, timeout=CASE_TIMEOUT, **extra)
 
@@ -306,23 +306,30 @@ def prop_oracle(c):
     f = facts(a)
     if not f["wellformed"] or f["outside"]:
         return None                     # not a scenario of the property (malformed-* / outside-* classes: correspondence only)
-    value_only = c.get("part") == "value"
     r = _run(a)
     calls = r[2]
     want_desc = '["%s"]' % R.descriptor(a[0])
     if len(calls) != 1 or calls[0][:2] != ("scantxoutset", "start") or calls[0][2] != want_desc:
         return "UTXO discovery does not ask for the sender's outputs: calls %r, expected scantxoutset start %s" % (calls, want_desc)
     rs, chs = a[12], a[13]
+    if rs is None or (a[2] and R.address_script(a[2]) is None):
+        # not a supported recipient / change kind (neither public key nor address): it must be refused, never mapped to a script
+        if r[0] == "err":
+            return None
+        return "a transaction was built for a recipient / change address that is neither a public key nor an address"
     refusable = []
     if f["req"] - f["fee"] < 0:
         refusable.append("requested amount %d is below the fee %d" % (f["req"], f["fee"]))
+    single_quirk = f["signed"] and f["kind"] in LEGACY_KINDS and (a[4] & 0x1F) == 3 and f["n_sel"] > f["n_out"]
     if r[0] == "err":
         if refusable:
             return None                 # nothing can be paid: refusing is the only correct behaviour
         if type(r[1]).__name__ == "DrawsExhausted":
             return None                 # the scripted nonce list of the harness ran dry: not a behaviour of send_tx
-        if value_only and isinstance(r[1], IndexError):
-            return None                 # how the known segwit index defects show: no transaction to look at
+        if single_quirk and isinstance(r[1], ValueError):
+            # SIGHASH_SINGLE on a non-witness input without a matching output: the consensus digest is the constant 1 (a
+            # signature of it is valid for ANY transaction); utils.sig cannot express it and send_tx refuses
+            return None
         return "send_tx raised %s: %s on a scenario of the property (kind %s, %d unspents, vouts %s)" % (
             type(r[1]).__name__, r[1], f["kind"], f["n_unspent"], f["vouts"])
     if refusable:
@@ -373,8 +380,6 @@ def prop_oracle(c):
     if sum(o[0] for o in outs) + fee + burnt != in_sum:
         return "conservation: outputs %d + fee %d + sub-dust %d != inputs %d" % (sum(o[0] for o in outs), fee, burnt, in_sum)
     # ---- unlocking data
-    if value_only:
-        return None
     if not f["signed"]:
         if t["wits"] is not None or any(i[2] for i in t["ins"]):
             return "unsigned transaction carries scriptSig / witness data"
@@ -436,7 +441,8 @@ def model_call(c):
     if c["op"] == "values":
         return "c16_values", list(a)
     cv = _curve()
-    table = [(a[1], a[12]), (a[2] if a[2] else a[0], a[13])]
+    other = a[2] if a[2] else a[0]
+    table = [(a[1], R.address_script(a[1]), R.is_key_or_address(a[1])), (other, R.address_script(other), R.is_key_or_address(other))]
     return "c16_send", [cv["p"], cv["a"], cv["n"], cv["G"], a[0], a[1], a[2], a[3], a[4], a[5], a[6], a[7], a[8], a[9], a[10], a[11],
                         table]
 
@@ -472,76 +478,11 @@ def coq_equation(c, mr):
 
 
 # ------------------------------------------------------------------------------------------------
-# known findings: NARROW matchers over the case record (facts() is the independent reference arithmetic)
-#   a case carrying part="value" evaluates only the value/structure clauses of the property (see extra_checks):
-#   the signing-defect matchers never match it, so a value-layer violation inside a known signing class is reported
+# known findings: none.  The six signing / change-script defects found by this check were repaired in /repo (fixed: lines of
+# KNOWN_FINDINGS.txt; corpus/c16/*.json are regression inputs, seeded/revert-<commit> re-introduce each defect).  A raw-script
+# RECIPIENT is not a supported kind (C08: data that is neither key nor address is refused): send_tx must refuse it.
 # ------------------------------------------------------------------------------------------------
-def _signing_part(c):
-    return c.get("op") == "send" and c.get("part") != "value"
-
-
-def _signed_facts(c):
-    """facts of a signed in-domain scenario whose signing clauses are being evaluated and that must yield a transaction"""
-    if not _signing_part(c):
-        return None
-    f = facts(c["args"])
-    if not f.get("wellformed") or f["outside"] or not f["signed"] or f["req"] - f["fee"] < 0:
-        return None
-    return f
-
-
-def _k_vout_index(c):
-    f = _signed_facts(c)
-    return bool(f) and f["kind"] in SEGWIT_KINDS and any(f["vouts"][j] != j for j in range(f["n_sel"]))
-
-
-def _k_unselected(c):
-    f = _signed_facts(c)
-    return bool(f) and f["kind"] in SEGWIT_KINDS and any(f["vouts"][i] >= f["n_sel"] for i in range(f["n_sel"], f["n_unspent"]))
-
-
-def _k_version_locktime(c):
-    f = _signed_facts(c)
-    return bool(f) and f["kind"] in SEGWIT_KINDS and (f["version"] != 1 or f["locktime"] != 0)
-
-
-def _k_legacy_multi(c):
-    f = _signed_facts(c)
-    return bool(f) and f["kind"] in LEGACY_KINDS and f["n_sel"] >= 2
-
-
-def _k_legacy_flag(c):
-    f = _signed_facts(c)
-    if not f or f["kind"] not in LEGACY_KINDS:
-        return False
-    base = f["flag"] & 0x1F
-    return base == 2 or (base == 3 and f["n_out"] >= 2)
-
-
-def _k_raw_sender(c):
-    if c.get("op") != "send":
-        return False
-    a = c["args"]
-    return not a[2] and R.address_script(a[0]) is None
-
-
-def _k_raw_recipient(c):
-    if c.get("op") != "send":
-        return False
-    return R.address_script(c["args"][1]) is None
-
-
-KNOWN = {
-    "send-segwit-vout-as-input-index": _k_vout_index,
-    "send-segwit-unselected-unspent-indexerror": _k_unselected,
-    "send-segwit-version-locktime-defaults": _k_version_locktime,
-    "send-legacy-one-signature-all-inputs": _k_legacy_multi,
-    "send-legacy-flag-not-applied": _k_legacy_flag,
-    "send-raw-sender-needs-change-addr": _k_raw_sender,
-    "send-raw-script-recipient-refused": _k_raw_recipient,
-}
-SIGNING_KNOWN = ("send-segwit-vout-as-input-index", "send-segwit-unselected-unspent-indexerror",
-                 "send-segwit-version-locktime-defaults", "send-legacy-one-signature-all-inputs", "send-legacy-flag-not-applied")
+KNOWN = {}
 
 
 # ------------------------------------------------------------------------------------------------
@@ -653,6 +594,24 @@ def gen_values(rng, n):
     return out
 
 
+def corpus_cases():
+    """corpus/c16/*.json (the witnesses of the findings repaired in /repo); the reference scripts are recomputed"""
+    import glob
+    import json
+    from common import case_from_json, VERIF
+    out = []
+    for path in sorted(glob.glob(os.path.join(VERIF, "corpus", "c16", "*.json"))):
+        c = case_from_json(json.load(open(path)))
+        a = list(c["args"])
+        a[12] = R.address_script(a[1])
+        a[13] = R.change_script(a[0], a[2])
+        c["args"] = a
+        c["cls"] = "corpus-" + os.path.basename(path)[:-5]
+        c["timeout"] = CASE_TIMEOUT
+        out.append(c)
+    return out
+
+
 def gen_cases(rng, tier):
     T = tier == "thorough"
     out = gen_values(rng, 6000 if T else 1200)
@@ -682,24 +641,36 @@ def gen_cases(rng, tier):
         # mainnet / testnet encodings
         A(_send_case(rng, "signed-ok-network", "p2pkh", [0], [COIN], net="mainnet", rk="p2wsh"))
         A(_send_case(rng, "signed-ok-network", "p2wpkh", [0], [COIN], net="testnet", rk="p2pkh", frac=0.5))
-        # ---- the known-finding classes (narrow matchers in KNOWN)
+        # ---- the classes of the repaired signing defects (regression: they must verify now)
         for kind in SEGWIT_KINDS:
-            A(_send_case(rng, "known-segwit-vout-index", kind, [1, 0], [COIN, COIN], flag=1, m=1))
-            A(_send_case(rng, "known-segwit-vout-index", kind, [rng.randrange(1, 6)], [COIN], flag=rng.choice(FLAGS), m=1))
-            A(_send_case(rng, "known-segwit-unselected", kind, [0, 1 + rng.randrange(5), 0][:2 + rng.randrange(2)], [COIN] * 3, frac=0.2, m=1))
-            A(_send_case(rng, "known-segwit-version-locktime", kind, [0], [COIN], version=rng.choice([1, 2]),
+            A(_send_case(rng, "regress-segwit-vout-index", kind, [1, 0], [COIN, COIN], flag=1, m=1))
+            A(_send_case(rng, "regress-segwit-vout-index", kind, [rng.randrange(1, 6)], [COIN], flag=rng.choice(FLAGS), m=1))
+            A(_send_case(rng, "regress-segwit-unselected", kind, [0, 1 + rng.randrange(5), 0][:2 + rng.randrange(2)], [COIN] * 3, frac=0.2, m=1))
+            A(_send_case(rng, "regress-segwit-version-locktime", kind, [0], [COIN], version=rng.choice([1, 2]),
                          locktime=rng.choice([1, 500000, 0xFFFFFFFE]), m=1))
-            A(_send_case(rng, "known-segwit-version-locktime", kind, [0], [COIN], version=2, locktime=0, m=1))
+            A(_send_case(rng, "regress-segwit-version-locktime", kind, [0], [COIN], version=2, locktime=0, m=1))
         for kind in LEGACY_KINDS:
-            A(_send_case(rng, "known-legacy-multi-input", kind, [0, 1], [COIN, COIN], flag=1, m=1))
-            A(_send_case(rng, "known-legacy-multi-input", kind, [rng.randrange(6) for _ in range(3)], [COIN] * 3, frac=0.9,
+            A(_send_case(rng, "regress-legacy-multi-input", kind, [0, 1], [COIN, COIN], flag=1, m=1))
+            A(_send_case(rng, "regress-legacy-multi-input", kind, [rng.randrange(6) for _ in range(3)], [COIN] * 3, frac=0.9,
                          flag=rng.choice(FLAGS), m=2))
-            A(_send_case(rng, "known-legacy-flag", kind, [0], [COIN], flag=rng.choice([2, 0x82]), frac=rng.choice([1.0, 0.5]), m=1))
-            A(_send_case(rng, "known-legacy-flag", kind, [0], [COIN], flag=rng.choice([3, 0x83]), frac=0.5, m=1))
-        A(_send_case(rng, "known-raw-sender-no-change", "multisig", [0], [COIN], change=None, m=1))
-        A(_send_case(rng, "known-raw-sender-no-change", "multisig", [0, 3], [COIN, COIN], change=None, signed=False))
-        A(_send_case(rng, "known-raw-recipient", "p2pkh", [0], [COIN], rk="raw", signed=False))
-        A(_send_case(rng, "known-raw-recipient", "p2wpkh", [0], [COIN], rk="raw"))
+            A(_send_case(rng, "regress-legacy-flag", kind, [0], [COIN], flag=rng.choice([2, 0x82]), frac=rng.choice([1.0, 0.5]), m=1))
+            A(_send_case(rng, "regress-legacy-flag", kind, [0], [COIN], flag=rng.choice([3, 0x83]), frac=0.5, m=1))
+        A(_send_case(rng, "regress-raw-sender-no-change", "multisig", [0], [COIN], change=None, m=1))
+        A(_send_case(rng, "regress-raw-sender-no-change", "multisig", [0, 3], [COIN, COIN], change=None, signed=False))
+        A(_send_case(rng, "unsupported-recipient-raw", "p2pkh", [0], [COIN], rk="raw", signed=False))
+        A(_send_case(rng, "unsupported-recipient-raw", "p2wpkh", [0], [COIN], rk="raw"))
+    # ---- legacy kinds: every flag with two inputs and two outputs (SINGLE: input 1 signs output 1), and the SIGHASH_SINGLE
+    #      input-without-output case (digest 1: not expressible through utils.sig, send_tx refuses with ValueError)
+    for kind in LEGACY_KINDS:
+        for flag in (FLAGS if T else rng.sample(FLAGS, 3) + [3]):
+            A(_send_case(rng, "legacy-multi-input-flags", kind, [rng.randrange(6), rng.randrange(6)], [COIN, COIN + 5000], frac=0.75,
+                         flag=flag, m=1, nkeys=2, version=rng.choice([1, 2]), locktime=rng.choice([0, 17]), compressed=rng.random() < 0.7))
+        A(_send_case(rng, "legacy-single-quirk", kind, [0, 1], [COIN, COIN], frac=1.0, flag=rng.choice([3, 0x83]), m=1, nkeys=2))
+    A(_send_case(rng, "legacy-single-quirk", "p2pkh", [2, 0, 1], [COIN, COIN, COIN], frac=0.9, flag=3))
+    A(_send_case(rng, "legacy-multi-input-flags", "p2sh", [0, 1, 2], [COIN, COIN, COIN], frac=0.9, flag=0x82, m=2, nkeys=3))
+    # ---- the witnesses of the repaired findings (corpus/c16/*.json): regression inputs that must satisfy the property now
+    for c in corpus_cases():
+        A(c)
     # ---- signed segwit on the valid sub-domain with INEXACT float amounts (a*1e8 just below the integer): the amount committed to
     #      by the BIP143 message must be the exact satoshi value, for every flag
     for kind in SEGWIT_KINDS:
@@ -797,34 +768,22 @@ def extra_checks(ctx):
     seed = int(os.environ.get("VERIF_SEED", "0") or 0)
     cases = gen_cases(random.Random("C16-%s-%s" % (tier, seed)), tier)
     out = []
-    n = 0
-    by_known = {}
-    unknown = 0
+    n = failing = 0
     vals = [c for c in cases if c["op"] == "values"]
     sends = [c for c in cases if c["op"] == "send"]
     rng = random.Random("C16-extra")
     for c in sends + rng.sample(vals, min(len(vals), 3000 if tier == "thorough" else 600)):
-        todo = [c]
-        slug = next((k for k in KNOWN if KNOWN[k](c)), None)
-        if slug in SIGNING_KNOWN:
-            todo.append(dict(c, part="value"))       # the value/structure clauses still have to hold inside a known signing class
-        for cc in todo:
-            v = impl.oracle(cc, timeout=CASE_TIMEOUT)
-            n += 1
-            if v is None:
-                continue
-            s2 = next((k for k in KNOWN if KNOWN[k](cc)), None)
-            if s2:
-                by_known[s2] = by_known.get(s2, 0) + 1
-            else:
-                unknown += 1
-            if s2 is None and unknown > 6:
-                continue
-            out.append({"kind": "input", "case": case_to_json(cc), "observed": "implementation (see property_oracle)",
-                        "expected": "the literal property C16 (independent checker harness/c16ref.py)", "oracle": v,
-                        "failing_input_found": True})
+        v = impl.oracle(c, timeout=CASE_TIMEOUT)
+        n += 1
+        if v is None:
+            continue
+        failing += 1
+        if failing > 8:
+            continue
+        out.append({"kind": "input", "case": case_to_json(c), "observed": "implementation (see property_oracle)",
+                    "expected": "the literal property C16 (independent checker harness/c16ref.py)", "oracle": v,
+                    "failing_input_found": True})
     ex = ctx["stats"].setdefault("extra", {})
     ex["literal_property_evaluations"] = n
-    ex["failing_scenarios_in_known_classes"] = by_known
-    ex["failing_scenarios_outside_known_classes"] = unknown
+    ex["failing_scenarios"] = failing
     return out
